@@ -18,6 +18,7 @@ malformed operations mixed into both.
 """
 from __future__ import annotations
 
+import functools
 import itertools
 import json
 from collections import Counter
@@ -68,12 +69,19 @@ def canon(kind, x):
     return tuple(x.spec)
 
 
+@functools.lru_cache(maxsize=None)
 def pred_refs(p):
     "the references of a predicate, as (tag, payload); order fixed: b s d p [n]"
     r = [('b', p[:2]), ('s', p), ('d', p), ('p', p)]
     if p in SYSNAME:
         r.append(('n', SYSNAME[p]))
-    return r
+    return tuple(r)
+
+
+@functools.lru_cache(maxsize=None)
+def sys_of_ref(r):
+    "the system predicate a reference denotes, if any"
+    return next((p for p in SYSNAME if r in pred_refs(p)), None)
 
 
 def reftok(r) -> str:
@@ -81,6 +89,7 @@ def reftok(r) -> str:
     return f'{tag}:' + (pl if tag == 'n' else '.'.join(map(str, pl)))
 
 
+@functools.lru_cache(maxsize=None)
 def pyref(r):
     tag, pl = r
     if tag == 'b' or tag == 's':
@@ -119,12 +128,12 @@ def pred_key(p):
 # An op is a tuple (name, *args).  slices are 3-tuples with None for an omitted part.
 
 SINGLE = {'append', 'add', 'insert', 'wedge', 'remove', 'discard', 'pop', 'del', 'set',
-          'insertT', 'setT', 'delT', 'appendU'}
+          'setT', 'delT', 'appendU'}
 BULK = {'extend', 'update', 'ior', 'iand', 'isub', 'ixor'}
 PURE = {'or', 'and', 'sub', 'xor', 'plus'}
-MALFORMED = {'insertT', 'setT', 'delT', 'appendU', 'setsN'}
+MALFORMED = {'setT', 'delT', 'appendU', 'setsN'}
 OPNAME = dict(set='setitem-index', sets='setitem-slice', setsN='setitem-slice', setT='setitem-index',
-              dels='delitem-slice', delT='delitem-index', insertT='insert', appendU='append')
+              dels='delitem-slice', delT='delitem-index', appendU='append')
 OPNAME['del'] = 'delitem-index'
 
 
@@ -139,7 +148,7 @@ def stok(x) -> str:
 def enc_op(kind, op) -> str:
     n = op[0]
     v = lambda x: vtok(kind, x)  # noqa: E731
-    if n in ('append', 'add', 'discard', 'insertT', 'setT'):
+    if n in ('append', 'add', 'discard', 'setT'):
         return f'{n} {v(op[1])}'
     if n == 'remove':
         return f'remove {reftok(op[1])}' if kind == 'preds' else f'remove {v(op[1])}'
@@ -423,8 +432,6 @@ def real_step(kind, c, op):
         elif n == 'plus':
             ret = c + [pv(x) for x in op[1]]
         # malformed stream
-        elif n == 'insertT':
-            c.insert('x', pv(op[1]))
         elif n == 'setT':
             c['x'] = pv(op[1])
         elif n == 'delT':
@@ -452,8 +459,9 @@ class Obs:
                 self.lookup, self.getref, self.internal)
 
 
+@functools.lru_cache(maxsize=None)
 def obs_refs(kind, uni):
-    return [r for p in uni for r in pred_refs(p)] if kind == 'preds' else []
+    return tuple(r for p in uni for r in pred_refs(p)) if kind == 'preds' else ()
 
 
 def observe(kind, c, uni) -> Obs:
@@ -558,7 +566,7 @@ def check_obs(kind, o: Obs, ref, uni):
         refs = obs_refs(kind, uni)
         for r, got, isin in zip(refs, o.getref, o.extra['memref']):
             m = lookup_ref(seq, r)
-            sysm = next((p for p in SYSNAME if r in pred_refs(p)), None)
+            sysm = sys_of_ref(r)
             want = m if m is not None else (sysm if sysm is not None else 'K')
             if got != want or isin != (m is not None):
                 bad.append((aux, True, f'reference {reftok(r)}: get -> {got}, in -> {isin}; members {seq}'))
@@ -800,7 +808,6 @@ def alphabet(kind, level):
         for a in bulk_args:
             add((name, a))
     # malformed
-    add(('insertT', V[0]))
     add(('setT', V[0]))
     add(('delT',))
     add(('appendU',))
@@ -887,7 +894,7 @@ def random_ops(kind, rng, length):
             op = (n,)
         elif n == 'malformed':
             m = rng.choice(sorted(MALFORMED))
-            op = (m, val()) if m in ('insertT', 'setT') else ((m, slc()) if m == 'setsN' else (m,))
+            op = (m, val()) if m == 'setT' else ((m, slc()) if m == 'setsN' else (m,))
             if m == 'setsN' and op[1][2] == 0:
                 op = (m, (0, 1, None))
         else:
@@ -1068,7 +1075,7 @@ def run(ctx: Ctx):
         r.case(kind, uni, ops, 'corpus')
 
     # exhaustive
-    plan = [('full', 2)] + ([('core', 3), ('mini', 5), ('full', 3)] if ctx.thorough else [('core', 2), ('mini', 4)])
+    plan = [('full', 2)] + ([('core', 3), ('mini', 5), ('full', 3)] if ctx.thorough else [('mini', 4)])
     sizes = {}
     for kind in KINDS:
         for level, depth in plan:
